@@ -12,7 +12,7 @@ import (
 )
 
 func init() {
-	core.Register(core.Check{ID: "C05", Level: "exploration", Run: func(c *core.Ctx) { runC05(c); historyPass(c, "C05"); reentrancyPass(c, "C05") }})
+	core.Register(core.Check{ID: "C05", Level: "exploration", Run: func(c *core.Ctx) { runC05(c); historyPass(c, "C05"); reentrancyPass(c, "C05"); arch386Pass(c, "C05") }})
 }
 
 type c05case struct {
@@ -126,6 +126,18 @@ func runC05(c *core.Ctx) {
 	specials := []string{"é", "K", "İ", "ı", "ſ", "�", "\xc3\x28", "\xff", "ß"}
 	for b := 0; b < 256; b++ {
 		specials = append(specials, string([]byte{byte(b)}))
+	}
+	// all code points of the BMP (quick: every third above U+0800) and the supplementary planes in steps of 251
+	for r := rune(0x80); r <= 0x10FFFF; r++ {
+		if r >= 0xD800 && r <= 0xDFFF {
+			continue
+		}
+		specials = append(specials, string(r))
+		if r >= 0x10000 {
+			r += 250
+		} else if !c.Thorough() && r >= 0x800 {
+			r += 2
+		}
 	}
 	for _, sp := range specials {
 		for _, h := range []string{sp, "ab" + sp, sp + "ab", "AB" + sp, "a" + sp + "b"} {
